@@ -4,9 +4,13 @@
 package main
 
 import (
+	"bytes"
+	"encoding/base64"
 	"fmt"
 	"image"
 	"image/color"
+	"image/draw"
+	"image/png"
 	"math"
 	"math/big"
 	"os"
@@ -833,6 +837,809 @@ func genPlacement(cfg *hx.Config, s *hx.Stream, direct *[]hx.DirectViolation, si
 	}
 }
 
+// ---------------------------------------------------------------- stream blockhist
+
+// a block image object as the application sees it
+type blockObj interface {
+	Draw(vaxis.Window)
+	Resize(w int, h int)
+	Destroy()
+	CellSize() (int, int)
+}
+
+// histPicture makes a picture with opaque, transparent and semi-transparent regions: bands,
+// a checkerboard, or per-pixel random alpha (every level, the threshold neighbourhood often)
+func histPicture(cfg *hx.Config, ag *alphaGen, W, H int) (image.Image, string) {
+	var img draw.Image
+	typ := cfg.Rand.Intn(4)
+	switch typ {
+	case 0, 1:
+		img = image.NewNRGBA(image.Rect(0, 0, W, H))
+	case 2:
+		img = image.NewRGBA(image.Rect(0, 0, W, H))
+	default:
+		img = image.NewNRGBA64(image.Rect(0, 0, W, H))
+	}
+	opaque := func() color.NRGBA {
+		return color.NRGBA{uint8(cfg.Rand.Intn(256)), uint8(cfg.Rand.Intn(256)), uint8(cfg.Rand.Intn(256)), 255}
+	}
+	// a band is opaque, transparent, or around the threshold
+	band := func() color.NRGBA {
+		c := opaque()
+		switch cfg.Rand.Intn(5) {
+		case 0, 1:
+			c.A = 0
+		case 2:
+			c.A = uint8(46 + cfg.Rand.Intn(8))
+		}
+		return c
+	}
+	pat := cfg.Rand.Intn(5)
+	name := []string{"columns", "rows", "checker", "random", "random"}[pat]
+	switch pat {
+	case 0, 1:
+		n := W
+		if pat == 1 {
+			n = H
+		}
+		cols := make([]color.NRGBA, n)
+		for i := 0; i < n; {
+			c, l := band(), 1+cfg.Rand.Intn(3)
+			for j := 0; j < l && i < n; j, i = j+1, i+1 {
+				cols[i] = c
+			}
+		}
+		for y := 0; y < H; y++ {
+			for x := 0; x < W; x++ {
+				if pat == 0 {
+					img.Set(x, y, cols[x])
+				} else {
+					img.Set(x, y, cols[y])
+				}
+			}
+		}
+	case 2:
+		a, b := opaque(), band()
+		b.A = 0
+		k := 1 + cfg.Rand.Intn(2)
+		for y := 0; y < H; y++ {
+			for x := 0; x < W; x++ {
+				if (x/k+y/(2*k))%2 == 0 {
+					img.Set(x, y, a)
+				} else {
+					img.Set(x, y, b)
+				}
+			}
+		}
+	default:
+		for y := 0; y < H; y++ {
+			for x := 0; x < W; x++ {
+				c := opaque()
+				c.A = ag.next(cfg)
+				img.Set(x, y, c)
+			}
+		}
+	}
+	return img, name + "/" + []string{"NRGBA", "NRGBA", "RGBA", "NRGBA64"}[typ]
+}
+
+// genBlockHist: one HalfBlockImage / FullBlockImage object per case and a history of calls on
+// it: Resize into fitting, growing, shrinking, equal and empty boxes, Draw, Destroy, Resize again.
+// Every Draw goes onto a screen filled with a sentinel; the cells that changed are the observation.
+func genBlockHist(cfg *hx.Config, s *hx.Stream) {
+	const rows, cols = 16, 40
+	vx, _ := newVaxis(rows, cols)
+	defer closeVaxis(vx)
+	n := 300
+	if cfg.Thorough() {
+		n = 6000
+	}
+	ag := &alphaGen{}
+	for c := 0; c < n; c++ {
+		W, H := 1+cfg.Rand.Intn(8), 1+cfg.Rand.Intn(10)
+		src, pname := histPicture(cfg, ag, W, H)
+		kind := c % 2
+		var obj blockObj
+		if kind == 0 {
+			obj = vx.NewHalfBlockImage(src)
+		} else {
+			obj = vx.NewFullBlockImage(src)
+		}
+		st, sj := imgTerm(src)
+		var ops []string
+		var opsJ []interface{}
+		tags := map[string]bool{pname: true}
+		lines := (H + 1) / 2
+		lastW, lastH := W, lines // box of the last Resize
+		resizes, drawsAfterSecond, destroyed, defaultCells := 0, 0, false, 0
+
+		doResize := func(class string) {
+			pw, ph := obj.CellSize()
+			var w, h int
+			switch class {
+			case "fits":
+				w, h = W+cfg.Rand.Intn(3), lines+cfg.Rand.Intn(3)
+			case "shrink":
+				w, h = 1+cfg.Rand.Intn(pw+1), 1+cfg.Rand.Intn(ph+1)
+				if cfg.Rand.Intn(2) == 0 && pw > 1 {
+					w = 1 + cfg.Rand.Intn(pw-1)
+				}
+			case "grow":
+				w, h = pw+1+cfg.Rand.Intn(3), ph+1+cfg.Rand.Intn(2)
+			case "equal":
+				w, h = lastW, lastH
+			case "zero":
+				w, h = cfg.Rand.Intn(W+2), cfg.Rand.Intn(lines+2)
+				switch cfg.Rand.Intn(3) {
+				case 0:
+					w = 0
+				case 1:
+					h = 0
+				default:
+					w, h = 0, 0
+				}
+			default:
+				w, h = cfg.Rand.Intn(W+3), cfg.Rand.Intn(lines+3)
+			}
+			panicked, _ := hx.Catch(func() { obj.Resize(w, h) })
+			oc := 0
+			if panicked {
+				oc = 1
+			}
+			ow, oh := obj.CellSize()
+			rsz := vaxis.VerifResizeImage(src, w, h, 1, 2)
+			rt, rj := imgTerm(rsz)
+			ops = append(ops, hx.Tuple(z(0), z(w), z(h), z(oc), z(ow), z(oh), rt, hx.List(nil)))
+			opsJ = append(opsJ, map[string]interface{}{"op": "Resize", "w": w, "h": h, "outcome": oc, "cellsW": ow, "cellsH": oh, "resized": rj})
+			if resizes > 0 && !destroyed {
+				switch {
+				case ow*oh < pw*ph:
+					tags["resize-fewer-cells"] = true
+				case ow*oh > pw*ph:
+					tags["resize-more-cells"] = true
+				default:
+					tags["resize-same-cells"] = true
+				}
+			}
+			if destroyed {
+				tags["resize-after-destroy"] = true
+			}
+			if w == 0 || h == 0 {
+				tags["empty-box"] = true
+			}
+			if rsz.Bounds().Max != src.Bounds().Max {
+				tags["scaled"] = true
+			}
+			resizes++
+			destroyed = false
+			lastW, lastH = w, h
+		}
+		doDraw := func() {
+			ow, oh := obj.CellSize()
+			root := vx.Window()
+			root.Fill(sentinel)
+			ox, oy := cfg.Rand.Intn(cols-9), cfg.Rand.Intn(rows-6)
+			win := root.New(ox, oy, ow+cfg.Rand.Intn(2), oh+cfg.Rand.Intn(2))
+			if cfg.Rand.Intn(3) == 0 {
+				win = root.New(ox/2, oy/2, -1, -1).New(ox-ox/2, oy-oy/2, ow+cfg.Rand.Intn(2), oh+cfg.Rand.Intn(2))
+			}
+			panicked, _ := hx.Catch(func() { obj.Draw(win) })
+			oc := 0
+			if panicked {
+				oc = 1
+			}
+			scr := vx.VerifScreenNext()
+			var drawn []string
+			var dj []interface{}
+			for y := 0; y < rows; y++ {
+				for x := 0; x < cols; x++ {
+					if scr[y][x].Cell != sentinel || scr[y][x].Sixel {
+						t, j := cellTerm(scr[y][x])
+						drawn = append(drawn, hx.Tuple(z(x-ox), z(y-oy), t))
+						dj = append(dj, []interface{}{x - ox, y - oy, j})
+						if scr[y][x].Background == 0 && scr[y][x].Foreground == 0 {
+							defaultCells++
+						}
+					}
+				}
+			}
+			ow, oh = obj.CellSize()
+			ops = append(ops, hx.Tuple(z(1), z(0), z(0), z(oc), z(ow), z(oh), hx.Tuple(z(0), z(0), hx.List(nil)), hx.List(drawn)))
+			opsJ = append(opsJ, map[string]interface{}{"op": "Draw", "outcome": oc, "cellsW": ow, "cellsH": oh, "window_origin": []int{ox, oy}, "drawn": dj})
+			if resizes >= 2 && !destroyed {
+				drawsAfterSecond++
+			}
+			if destroyed {
+				tags["draw-after-destroy"] = true
+			}
+			if resizes == 0 {
+				tags["draw-before-resize"] = true
+			}
+		}
+		doDestroy := func() {
+			panicked, _ := hx.Catch(func() { obj.Destroy() })
+			oc := 0
+			if panicked {
+				oc = 1
+			}
+			ow, oh := obj.CellSize()
+			ops = append(ops, hx.Tuple(z(2), z(0), z(0), z(oc), z(ow), z(oh), hx.Tuple(z(0), z(0), hx.List(nil)), hx.List(nil)))
+			opsJ = append(opsJ, map[string]interface{}{"op": "Destroy", "outcome": oc, "cellsW": ow, "cellsH": oh})
+			destroyed = true
+			tags["destroy"] = true
+		}
+
+		if c%5 == 0 {
+			// directed: large, smaller, same, empty, larger, destroyed, small again - drawn each time
+			tags["directed"] = true
+			for _, cl := range []string{"fits", "shrink", "equal", "zero", "grow", "destroy", "shrink"} {
+				if cl == "destroy" {
+					doDestroy()
+				} else {
+					doResize(cl)
+				}
+				doDraw()
+			}
+		} else {
+			tags["random"] = true
+			if cfg.Rand.Intn(8) == 0 {
+				doDraw() // before the first Resize
+			}
+			doResize([]string{"fits", "fits", "random", "shrink"}[cfg.Rand.Intn(4)])
+			for k, nops := 0, 3+cfg.Rand.Intn(8); k < nops; k++ {
+				switch r := cfg.Rand.Intn(20); {
+				case r < 9:
+					doResize([]string{"shrink", "shrink", "shrink", "grow", "fits", "equal", "zero", "random"}[cfg.Rand.Intn(8)])
+				case r < 17:
+					doDraw()
+				default:
+					doDestroy()
+				}
+			}
+			doDraw()
+		}
+		if defaultCells > 0 {
+			tags["default-colour-cells"] = true
+		}
+		var tl []string
+		for t := range tags {
+			tl = append(tl, t)
+		}
+		kn := []string{"halfblock", "fullblock"}[kind]
+		s.Add(hx.Tuple(z(kind), st, hx.List(ops)),
+			map[string]interface{}{"stream": "blockhist", "kind": kn, "src": sj, "ops": opsJ},
+			drawsAfterSecond > 0, append(tl, kn)...)
+	}
+}
+
+// ---------------------------------------------------------------- stream gfxhist
+
+// sixelPic is a decoded sixel string: the colour (r g b in percent) of every pixel that is set
+type sixelPic struct {
+	px         map[[2]int][3]int
+	maxX, maxY int
+}
+
+// decodeSixel decodes the body of a sixel DCS string ("0;0;8q" parameters, raster attributes,
+// colour definitions #n;2;r;g;b, colour selections #n, repeats !n, $ and -)
+func decodeSixel(body string) (*sixelPic, bool) {
+	k := strings.IndexByte(body, 'q')
+	if k < 0 {
+		return nil, false
+	}
+	p := &sixelPic{px: map[[2]int][3]int{}, maxX: -1, maxY: -1}
+	pal := map[int][3]int{}
+	cur, x, bandN := 0, 0, 0
+	b := body[k+1:]
+	num := func(i int) (int, int) {
+		n := 0
+		for i < len(b) && b[i] >= '0' && b[i] <= '9' {
+			n = n*10 + int(b[i]-'0')
+			i++
+		}
+		return n, i
+	}
+	put := func(c byte, count int) bool {
+		if c < '?' || c > '~' {
+			return false
+		}
+		bits := int(c - '?')
+		for ; count > 0; count-- {
+			for q := 0; q < 6; q++ {
+				if bits>>uint(q)&1 == 1 {
+					y := bandN*6 + q
+					p.px[[2]int{x, y}] = pal[cur]
+					if x > p.maxX {
+						p.maxX = x
+					}
+					if y > p.maxY {
+						p.maxY = y
+					}
+				}
+			}
+			x++
+		}
+		return true
+	}
+	for i := 0; i < len(b); {
+		switch c := b[i]; {
+		case c == '"':
+			i++
+			for i < len(b) && (b[i] == ';' || (b[i] >= '0' && b[i] <= '9')) {
+				i++
+			}
+		case c == '#':
+			var n int
+			n, i = num(i + 1)
+			if i < len(b) && b[i] == ';' {
+				var v [4]int
+				for j := 0; j < 4; j++ {
+					if i >= len(b) || b[i] != ';' {
+						return nil, false
+					}
+					v[j], i = num(i + 1)
+				}
+				if v[0] != 2 {
+					return nil, false
+				}
+				pal[n] = [3]int{v[1], v[2], v[3]}
+			} else {
+				cur = n
+			}
+		case c == '!':
+			var n int
+			n, i = num(i + 1)
+			if i >= len(b) || !put(b[i], n) {
+				return nil, false
+			}
+			i++
+		case c == '$':
+			x = 0
+			i++
+		case c == '-':
+			x = 0
+			bandN++
+			i++
+		default:
+			if !put(c, 1) {
+				return nil, false
+			}
+			i++
+		}
+	}
+	return p, true
+}
+
+// sixelShows: the decoded string shows exactly the picture (opaque pixels with their colour at
+// sixel precision, transparent pixels not set, nothing outside)
+func sixelShows(p *sixelPic, want image.Image) bool {
+	b := want.Bounds()
+	seen := 0
+	for y := 0; y < b.Max.Y; y++ {
+		for x := 0; x < b.Max.X; x++ {
+			r, g, bl, a := want.At(x, y).RGBA()
+			got, ok := p.px[[2]int{x, y}]
+			if a == 0 {
+				if ok {
+					return false
+				}
+				continue
+			}
+			if !ok || got != [3]int{int(r * 100 / 0xFFFF), int(g * 100 / 0xFFFF), int(bl * 100 / 0xFFFF)} {
+				return false
+			}
+			seen++
+		}
+	}
+	return seen == len(p.px)
+}
+
+func samePixels(a, b image.Image) bool {
+	if a.Bounds() != b.Bounds() {
+		return false
+	}
+	r := a.Bounds()
+	for y := r.Min.Y; y < r.Max.Y; y++ {
+		for x := r.Min.X; x < r.Max.X; x++ {
+			r1, g1, b1, a1 := a.At(x, y).RGBA()
+			r2, g2, b2, a2 := b.At(x, y).RGBA()
+			if r1 != r2 || g1 != g2 || b1 != b2 || a1 != a2 {
+				return false
+			}
+		}
+	}
+	return true
+}
+
+// findingRecorded: is the finding key listed for C20 in KNOWN_FINDINGS.txt (the harness runs in /verif)
+func findingRecorded(key string) bool {
+	data, err := os.ReadFile("KNOWN_FINDINGS.txt")
+	if err != nil {
+		return false
+	}
+	for _, l := range strings.Split(string(data), "\n") {
+		if strings.HasPrefix(l, "finding:") && strings.Contains(l, "property=C20 ") && strings.Contains(l, "key="+key+" ") {
+			return true
+		}
+	}
+	return false
+}
+
+// gfxHist drives one KittyImage / Sixel through Resize / Show / Destroy on its own Vaxis
+type gfxHist struct {
+	cfg      *hx.Config
+	sixel    bool
+	vx       *vaxis.Vaxis
+	fc       *hx.FakeConsole
+	src      image.Image
+	img      placeable
+	destroy  func()
+	cw, ch   int
+	ops      []string
+	opsJ     []interface{}
+	tags     map[string]bool
+	lastRsz  image.Image // what resizeImage returns for the last Resize
+	lastBox  [2]int
+	enc      bool        // the last Resize gave a picture that is not empty, no Destroy since
+	termData image.Image // kitty: the picture the terminal holds for the image id
+	shows    int
+}
+
+func newGfxHist(cfg *hx.Config, sixel bool, src image.Image) *gfxHist {
+	g := &gfxHist{cfg: cfg, sixel: sixel, src: src, tags: map[string]bool{}, lastBox: [2]int{3, 2}}
+	g.vx, g.fc = newVaxis(24, 80)
+	ws := g.vx.VerifWinSize()
+	g.cw, g.ch = ws.XPixel/ws.Cols, ws.YPixel/ws.Rows
+	if sixel {
+		sx := g.vx.NewSixel(src)
+		g.img, g.destroy = sx, sx.Destroy
+	} else {
+		k := g.vx.NewKittyGraphic(src)
+		g.img, g.destroy = k, k.Destroy
+	}
+	g.vx.Render()
+	g.fc.Take()
+	return g
+}
+
+func (g *gfxHist) add(code, a, b, oc, nw, nh, placed, sent, dw, dh, same int, name string) {
+	ow, oh := g.img.CellSize()
+	g.ops = append(g.ops, hx.Tuple(z(code), z(a), z(b), z(oc), z(ow), z(oh), z(nw), z(nh), z(placed), z(sent), z(dw), z(dh), z(same)))
+	g.opsJ = append(g.opsJ, map[string]interface{}{"op": name, "a": a, "b": b, "outcome": oc, "cellsW": ow, "cellsH": oh,
+		"resizedW": nw, "resizedH": nh, "placed": placed, "sent": sent, "dataW": dw, "dataH": dh, "same": same})
+}
+
+func (g *gfxHist) resize(w, h int) {
+	pw, ph := g.img.CellSize()
+	panicked, _ := hx.Catch(func() { g.img.Resize(w, h) })
+	waitIdle(g.img.VerifEncoding)
+	oc := 0
+	if panicked {
+		oc = 1
+	}
+	g.lastRsz = vaxis.VerifResizeImage(g.src, w, h, g.cw, g.ch)
+	m := g.lastRsz.Bounds().Max
+	g.enc = m.X > 0 && m.Y > 0
+	g.lastBox = [2]int{w, h}
+	g.add(0, w, h, oc, m.X, m.Y, 0, 0, 0, 0, 0, "Resize")
+	ow, oh := g.img.CellSize()
+	if len(g.ops) > 1 {
+		switch {
+		case ow == pw && oh == ph:
+			g.tags["resize-same-cells"] = true
+		case ow*oh < pw*ph:
+			g.tags["resize-fewer-cells"] = true
+		default:
+			g.tags["resize-more-cells"] = true
+		}
+	}
+	if w == 0 || h == 0 {
+		g.tags["empty-box"] = true
+	}
+	if !g.enc {
+		g.tags["empty-picture"] = true
+	}
+}
+
+// show: Clear, Draw into a window of ww x wh cells, Refresh; then read graphicsNext and the output
+func (g *gfxHist) show(ww, wh int) {
+	id := int(g.img.VerifID())
+	ow, oh := g.img.CellSize()
+	root := g.vx.Window()
+	root.Clear()
+	col, row := g.cfg.Rand.Intn(40), g.cfg.Rand.Intn(12)
+	win := root.New(col, row, ww, wh)
+	if g.cfg.Rand.Intn(4) == 0 {
+		win = root.New(col/2, row/2, -1, -1).New(col-col/2, row-row/2, ww, wh)
+	}
+	ww, wh = win.Size()
+	panicked, _ := hx.Catch(func() { g.img.Draw(win) })
+	oc := 0
+	if panicked {
+		oc = 1
+	}
+	snap := g.vx.VerifGraphicsNext()
+	g.vx.Refresh()
+	toks := tokenize(g.fc.Take())
+	puts, sent, bad := 0, 0, false
+	var payload strings.Builder
+	var sixelData *sixelPic
+	for i, t := range toks {
+		switch {
+		case t.kind == 3:
+			k := strings.IndexByte(t.body, 'q')
+			if k < 0 || strings.Trim(t.body[:k], "0123456789;") != "" {
+				continue
+			}
+			sent++
+			if i > 0 && toks[i-1].kind == 1 && toks[i-1].a == row+1 && toks[i-1].b == col+1 {
+				puts++
+			} else {
+				bad = true
+			}
+			if d, ok := decodeSixel(t.body); ok {
+				sixelData = d
+			} else {
+				bad = true
+			}
+		case t.kind == 2 && strings.HasPrefix(t.body, "G"):
+			m := kv(t.body)
+			tid, _ := strconv.Atoi(m["i"])
+			if tid != id {
+				continue
+			}
+			switch {
+			case m["f"] == "100":
+				if k := strings.IndexByte(t.body, ';'); k >= 0 {
+					payload.WriteString(t.body[k+1:])
+				}
+				if m["m"] == "0" {
+					// the upload is complete: the terminal now holds this picture
+					sent++
+					raw, err := base64.StdEncoding.DecodeString(payload.String())
+					payload.Reset()
+					g.termData = nil
+					if err == nil {
+						if pic, err := png.Decode(bytes.NewReader(raw)); err == nil {
+							g.termData = pic
+						}
+					}
+					if g.termData == nil {
+						bad = true
+					}
+				}
+			case m["a"] == "p":
+				pid, _ := strconv.Atoi(m["p"])
+				j := i - 1
+				for j >= 0 && toks[j].kind == 2 && strings.HasPrefix(toks[j].body, "Gf=100") {
+					j--
+				}
+				if j >= 0 && toks[j].kind == 1 && toks[j].a == row+1 && toks[j].b == col+1 && pid == col<<16|row && m["C"] == "1" {
+					puts++
+				} else {
+					bad = true
+				}
+			case m["a"] == "d" && m["d"] == "i":
+				// the placement of the frame before is deleted on a refresh
+			default:
+				bad = true
+			}
+		}
+	}
+	placed := 9
+	switch {
+	case bad:
+	case len(snap) == 0 && puts == 0:
+		placed = 0
+	case len(snap) == 1 && puts == 1 && snap[0] == (vaxis.VerifPlacement{ID: uint64(id), Col: col, Row: row, W: ow, H: oh}):
+		placed = 1
+	case len(snap) == 1 && puts == 0:
+		placed = 8 // a placement that was not written
+	}
+	dw, dh, same := 0, 0, 0
+	if placed == 1 {
+		if g.sixel {
+			if sixelData != nil {
+				dw, dh = sixelData.maxX+1, sixelData.maxY+1
+				if g.lastRsz != nil && sixelShows(sixelData, g.lastRsz) {
+					// a sixel string has no size of its own: when it shows exactly the picture, its
+					// size is the picture's (trailing transparent pixels are not written)
+					same = 1
+					dw, dh = g.lastRsz.Bounds().Max.X, g.lastRsz.Bounds().Max.Y
+				}
+			}
+		} else if g.termData != nil {
+			dw, dh = g.termData.Bounds().Max.X, g.termData.Bounds().Max.Y
+			if g.lastRsz != nil && samePixels(g.termData, g.lastRsz) {
+				same = 1
+			}
+		}
+		g.tags["placed"] = true
+	} else {
+		g.tags["not-placed"] = true
+	}
+	if sent > 0 {
+		g.tags["data-sent"] = true
+	} else if placed == 1 {
+		g.tags["placed-without-resend"] = true
+	}
+	g.add(1, ww, wh, oc, 0, 0, placed, sent, dw, dh, same, "Show")
+	g.shows++
+}
+
+func (g *gfxHist) destroyImg() {
+	id := int(g.img.VerifID())
+	panicked, _ := hx.Catch(g.destroy)
+	oc := 0
+	if panicked {
+		oc = 1
+	}
+	deleted := 0
+	for _, t := range tokenize(g.fc.Take()) {
+		if t.kind == 2 && strings.HasPrefix(t.body, "G") {
+			m := kv(t.body)
+			if tid, _ := strconv.Atoi(m["i"]); tid == id && m["a"] == "d" && m["d"] == "I" {
+				deleted = 1
+				g.termData = nil
+			}
+		}
+	}
+	g.enc = false
+	g.tags["destroy"] = true
+	g.add(2, 0, 0, oc, 0, 0, deleted, 0, 0, 0, 0, "Destroy")
+}
+
+func (g *gfxHist) finish(s *hx.Stream, resizes int) {
+	closeVaxis(g.vx)
+	var tl []string
+	for t := range g.tags {
+		tl = append(tl, t)
+	}
+	kind, kn := 2, "kitty"
+	if g.sixel {
+		kind, kn = 3, "sixel"
+	}
+	b := g.src.Bounds().Max
+	nr := image.NewNRGBA(g.src.Bounds())
+	draw.Draw(nr, nr.Bounds(), g.src, image.Point{}, draw.Src)
+	s.Add(hx.Tuple(z(kind), z(b.X), z(b.Y), z(g.cw), z(g.ch), hx.List(g.ops)),
+		map[string]interface{}{"stream": "gfxhist", "kind": kn, "wPix": b.X, "hPix": b.Y, "cellPix": []int{g.cw, g.ch},
+			"src_nrgba_base64": base64.StdEncoding.EncodeToString(nr.Pix), "ops": g.opsJ},
+		resizes >= 2 && g.shows > 0, append(tl, kn)...)
+}
+
+// fewColours: an opaque picture of at most 6 colours (exact through the sixel quantiser) with a
+// few fully transparent pixels
+func fewColours(cfg *hx.Config, W, H int) image.Image {
+	pal := make([]color.NRGBA, 2+cfg.Rand.Intn(5))
+	for i := range pal {
+		pal[i] = color.NRGBA{uint8(cfg.Rand.Intn(256)), uint8(cfg.Rand.Intn(256)), uint8(cfg.Rand.Intn(256)), 255}
+	}
+	img := image.NewNRGBA(image.Rect(0, 0, W, H))
+	bw, bh := 1+cfg.Rand.Intn(9), 1+cfg.Rand.Intn(9)
+	holes := cfg.Rand.Intn(3) == 0
+	for y := 0; y < H; y++ {
+		for x := 0; x < W; x++ {
+			if holes && cfg.Rand.Intn(9) == 0 {
+				continue
+			}
+			img.SetNRGBA(x, y, pal[(x/bw+2*(y/bh))%len(pal)])
+		}
+	}
+	return img
+}
+
+// corpusNoEncoding is the deterministic replay of the finding kitty-no-encoding (props/C20.v,
+// C20_kitty_no_encoding_refuted): 20x40 pixels, cells 8x16
+func corpusNoEncoding(cfg *hx.Config, s *hx.Stream) {
+	g := newGfxHist(cfg, false, fewColours(cfg, 20, 40))
+	g.resize(3, 3)
+	g.show(10, 5)
+	g.resize(0, 2)
+	g.show(10, 5)
+	g.tags["corpus"] = true
+	g.tags["no-encoding"] = true
+	g.finish(s, 2)
+}
+
+// genGfxHist: histories of Resize (random, equal, neighbouring, empty boxes; thin pictures that
+// scale to an empty one), Show (roomy, exact and too small windows) and Destroy on one object
+func genGfxHist(cfg *hx.Config, s *hx.Stream) bool {
+	noEnc := findingRecorded("kitty-no-encoding")
+	if noEnc {
+		corpusNoEncoding(cfg, s)
+	}
+	n := 120
+	if cfg.Thorough() {
+		n = 2400
+	}
+	for c := 0; c < n; c++ {
+		sixel := c%2 == 1
+		W, H := 8+cfg.Rand.Intn(41), 8+cfg.Rand.Intn(57)
+		switch cfg.Rand.Intn(6) {
+		case 0: // tall and thin: a low box scales the width to 0
+			W, H = 1+cfg.Rand.Intn(8), 100+cfg.Rand.Intn(100)
+		case 1:
+			W, H = 100+cfg.Rand.Intn(200), 1+cfg.Rand.Intn(16)
+		}
+		g := newGfxHist(cfg, sixel, fewColours(cfg, W, H))
+		// a kitty image without a current encoding is placed all the same (finding
+		// kitty-no-encoding): those histories are generated once the finding is recorded
+		mayShow := func() bool { return sixel || noEnc || g.enc }
+		resizes := 0
+		doResize := func() {
+			w, h := 1+cfg.Rand.Intn(6), 1+cfg.Rand.Intn(4)
+			switch r := cfg.Rand.Intn(20); {
+			case r < 3:
+				switch cfg.Rand.Intn(3) {
+				case 0:
+					w = 0
+				case 1:
+					h = 0
+				default:
+					w, h = 0, 0
+				}
+			case r < 6:
+				w, h = g.lastBox[0], g.lastBox[1]
+			case r < 10:
+				w, h = g.lastBox[0], g.lastBox[1]
+				if cfg.Rand.Intn(2) == 0 {
+					w += 1 - 2*cfg.Rand.Intn(2)
+				} else {
+					h += 1 - 2*cfg.Rand.Intn(2)
+				}
+				if w < 0 {
+					w = 0
+				}
+				if h < 0 {
+					h = 0
+				}
+			}
+			g.resize(w, h)
+			resizes++
+		}
+		doShow := func() {
+			if !mayShow() {
+				return
+			}
+			if !g.enc {
+				g.tags["no-encoding"] = true
+			}
+			ow, oh := g.img.CellSize()
+			ww, wh := 10, 5
+			switch cfg.Rand.Intn(7) {
+			case 0:
+				ww, wh = ow, oh
+			case 1:
+				ww = cfg.Rand.Intn(ow + 1)
+				g.tags["small-window"] = true
+			case 2:
+				wh = cfg.Rand.Intn(oh + 1)
+				g.tags["small-window"] = true
+			}
+			g.show(ww, wh)
+		}
+		if cfg.Rand.Intn(8) == 0 {
+			doShow() // before the first Resize
+			g.tags["show-before-resize"] = true
+		}
+		doResize()
+		for k, nops := 0, 3+cfg.Rand.Intn(7); k < nops; k++ {
+			switch r := cfg.Rand.Intn(20); {
+			case r < 8:
+				doResize()
+			case r < 18:
+				doShow()
+			default:
+				g.destroyImg()
+			}
+		}
+		doShow()
+		g.finish(s, resizes)
+	}
+	return noEnc
+}
+
 // ---------------------------------------------------------------- stream float
 
 func fracOf(f float64) (string, string) {
@@ -974,6 +1781,16 @@ func main() {
 	sx.ShardMax = 400
 	genPlacement(cfg, sx, &direct, true)
 
+	bh := hx.NewStream("blockhist", "model.Image", "blockhist_case", "c20_blockhist_mismatches", "c20_blockhist_violations")
+	bh.ShardMax = 150
+	genBlockHist(cfg, bh)
+
+	gh := hx.NewStream("gfxhist", "model.Image", "gfxhist_case", "c20_gfxhist_mismatches", "c20_gfxhist_violations")
+	gh.ShardMax = 300
+	gh.Known = "c20_gfxhist_known"
+	gh.KnownClass = "kitty-no-encoding"
+	extra["kitty_no_encoding_histories_generated"] = genGfxHist(cfg, gh)
+
 	extra["quantiser_images_checked"] = genQuant(cfg, &direct)
 
 	fs := hx.NewStream("float", "model.Image", "float_case", "c20_float_mismatches", "c20_float_violations")
@@ -987,7 +1804,9 @@ func main() {
 		"pixels: block images of random NRGBA/RGBA/NRGBA64 pixels over every alpha level, drawn through Window.SetCell onto a sentinel screen and read back (all non-trivial); "+
 		"placement: a fixed corpus history (recorded finding resize-same-cells) and random add/keep/move/resize/drop/refresh histories of kitty images on a fake console, placement and image-data control sequences parsed from the output (non-trivial = contains a move, drop, resize or refresh); "+
 		"sixel: the same histories with Sixel images, sixel strings located in the output, marked cells compared with the drawn rectangles; "+
+		"blockhist: one half-block / full-block object per case on pictures with opaque, transparent and threshold-alpha bands, checkerboards and random alpha, and a history of Resize (fitting, growing, shrinking, equal, empty boxes), Draw (cells that changed on a sentinel screen) and Destroy, directed and random (non-trivial = a Draw after a second Resize); "+
+		"gfxhist: one KittyImage / Sixel per case and a history of Resize (random, equal, neighbouring, empty boxes; thin pictures that scale to an empty one), Show (Clear, Draw into a roomy / exact / too small window, Refresh; placement from graphicsNext, transmitted PNG / sixel data decoded and compared with resizeImage's picture) and Destroy (non-trivial = two Resizes and a Show); "+
 		"quantiser (direct checks, no model): octreequant.Paletted on images of at most 254 colours must reproduce every pixel; "+
 		"float: hardware float64(a)/float64(b)*float64(k) against the integer-only rounding model (non-trivial = inexact)",
-		[]*hx.Stream{rs, cs, ps, pl, sx, fs}, extra, direct)
+		[]*hx.Stream{rs, cs, ps, bh, gh, pl, sx, fs}, extra, direct)
 }
